@@ -263,16 +263,23 @@ class Delete(AbstractCommand):
                     element.eGet(reference).extend(content)
                 else:
                     element.eSet(reference, content)
+        restores = []
         for element, v in self.inverse_references.items():
             for i, obj, reference in v:
                 if obj in self.references:
                     # a referrer that was deleted too: its own references
                     # have just been restored above
                     continue
-                if reference.many:
-                    obj.eGet(reference).insert(i, element)
-                else:
-                    obj.eSet(reference, element)
+                restores.append((i, obj, reference, element))
+        # several deleted elements may go back into one collection: each
+        # recorded index is a position in the original collection, so the
+        # lower positions have to be filled first
+        for i, obj, reference, element in sorted(restores,
+                                                 key=lambda x: x[0]):
+            if reference.many:
+                obj.eGet(reference).insert(i, element)
+            else:
+                obj.eSet(reference, element)
 
     def redo(self):
         self.do_execute()
